@@ -35,7 +35,7 @@ func init() {
 			return []runner.Phase{
 				{Name: "cut-enum", Variant: "plain", Cases: m, Run: c07enum, CaseTimeout: 120 * time.Second, Required: []string{"cuts_injected", "frames_checked"}},
 				{Name: "tcp", Variant: "race", Cases: n / 2, Run: c07tcp, CaseTimeout: 180 * time.Second, Required: []string{"tcp_scenarios", "tcp_slow_reader_scenarios", "tcp_frames_checked", "tcp_failed_writes"}},
-				{Name: "mixed", Variant: "race", Cases: n, Run: c07mixed, CaseTimeout: 180 * time.Second, Required: []string{"cuts_injected", "frames_checked", "coalesced_scenarios", "direct_scenarios", "stall_scenarios"}},
+				{Name: "mixed", Variant: "race", Cases: n, Run: c07mixed, CaseTimeout: 180 * time.Second, Required: []string{"cuts_injected", "frames_checked", "coalesced_scenarios", "direct_scenarios", "stall_scenarios", "huge_frame_scenarios"}},
 			}
 		},
 	})
@@ -112,6 +112,11 @@ func c07mixed(c *runner.Ctx, i int) {
 	ec.coalesce = []time.Duration{0, 0, 50 * time.Microsecond, 200 * time.Microsecond, 2 * time.Millisecond}[r.Intn(5)]
 	ec.bigFrames = false
 	ec.padTokens = r.Intn(2) == 0
+	if r.Intn(3) == 0 {
+		ec.hugeFrames = true
+		ec.perCaller = 100/ec.callers + 2
+		c.Add("huge_frame_scenarios", 1)
+	}
 	ec.pPreCancel = []int{0, 5}[r.Intn(2)]
 	ec.pCancel = []int{0, 10, 30}[r.Intn(3)]
 	ec.pLate = []int{0, 5}[r.Intn(2)]
